@@ -153,3 +153,29 @@ Example C01_raw_int_example :
   lookup (list N) st [7%N] (2, 3, 0, 2, 0, 2) = Some [250; 255; 251; 255; 255; 255; 255; 255]%N.
 Proof. exact convert_pointwise_raw_int_nonvacuous. Qed.
 Print Assumptions C01_raw_int_example.
+
+(* ---- conversion into a destination that is NOT empty ----
+   whatever chunks the destination held before (an older generation of the
+   dataset, another volume converted earlier), after the conversion loop every
+   voxel reads as the converted input value *)
+From NGS Require Import VolAnyStore.
+Theorem C01_convert_into_populated :
+  forall (V : Type) (f : V -> V) (vol : Z -> Z -> Z -> Z -> V) (nch : Z) (bytes : Type)
+         (encode : list N -> vchunk V -> outcome bytes)
+         (decode : list N -> bytes -> triple -> outcome (vchunk V)),
+  (forall k ch b, encode k ch = Ok b -> decode k b (vshape V ch) = Ok ch) ->
+  (forall k ch, exists b, encode k ch = Ok b) ->
+  forall (st0 : store bytes) key sx sy sz cx cy cz,
+  0 < nch -> pos_triple (sx, sy, sz) -> pos_triple (cx, cy, cz) ->
+  let s := {| sc_key := key; sc_size := (sx, sy, sz); sc_chunk_sizes := [(cx, cy, cz)];
+              sc_voxel_offset := Some (0, 0, 0) |} in
+  let st := fst (run (vchunk V) bytes encode decode [s] st0
+                     (convert_ops V f vol nch key (sx, sy, sz) (cx, cy, cz))) in
+  forall x y z ch,
+  0 <= x < sx -> 0 <= y < sy -> 0 <= z < sz -> 0 <= ch < nch ->
+  let c := chunk_of (sx, sy, sz) (cx, cy, cz) x y z in
+  exists data,
+    read_chunk (vchunk V) bytes decode [s] st key c = Ok (extents c, data) /\
+    voxel_in V c data x y z ch = Some (f (vol x y z ch)).
+Proof. exact convert_into_populated. Qed.
+Print Assumptions C01_convert_into_populated.
